@@ -287,6 +287,3 @@ pub fn replay(ctx: &Ctx, sub: &str, case: &Value) -> Result<(), String> {
     Ok(())
 }
 
-pub fn fuzz_strategy() -> impl Strategy<Value = Case> {
-    strategy(64, 300)
-}
